@@ -177,6 +177,14 @@ func callMenu() []callT {
 			func() (string, bool) {
 				return walk.Struct([]*T1{{F: "", G: 9}, {F: "abcd", G: 2}}, walk.Opts{}).Error(), true
 			}},
+		// groups in the elements of a slice of maps, then (in other calls of the menu) groups in structs and URLs
+		{"Map([]map, either+botheq groups)", func() []interface{} {
+			return []interface{}{[]map[string]string{{"k": "", "j": "", "a": "1", "b": "2"}, {"k": "x", "j": "", "a": "1", "b": "1"}, {"k": "", "j": "", "a": "", "b": ""}},
+				valid.RM{"k": "either=1", "j": "either=1", "a": "botheq=2", "b": "botheq=2"}}
+		}, func(a []interface{}) (string, []string) { return errText(valid.Map(a[0], a[1].(valid.RM))), nil }, nil},
+		{"Url(either group)", func() []interface{} {
+			return []interface{}{"http://h/p?k=&j=&a=1", valid.RM{"k": "either=1", "j": "either=1"}}
+		}, func(a []interface{}) (string, []string) { return errText(valid.Url(a[0].(string), a[1].(valid.RM))), nil }, nil},
 		// two patterns that agree up to an escaped quote
 		{"Var(re with escaped quote, a-c)", func() []interface{} { return []interface{}{"it's abc", []string{"re='^it\\'s [a-c]+$'|must be a-c"}} },
 			func(a []interface{}) (string, []string) { return errText(valid.Var(a[0], a[1].([]string)...)), nil },
@@ -415,11 +423,12 @@ func run(c *runner.Ctx) {
 		if choices, child := vsched.ChildChoices(); child {
 			x := ex.Replay(choices)
 			if dv := ex.Diverged(); dv != "" {
-				fmt.Fprintf(os.Stderr, "HARNESS-ERROR: %s in a fresh process (sequence %v)\n", dv, names)
-				os.Exit(3)
+				vsched.WriteChildDiverged(dv)
+				res = vsched.Result{Execs: 1}
+			} else {
+				vsched.WriteChildResult(x, ex.Check(x))
+				res = vsched.Result{Execs: 1, Steps: int64(len(x.Trace))}
 			}
-			vsched.WriteChildResult(x, ex.Check(x))
-			res = vsched.Result{Execs: 1, Steps: int64(len(x.Trace))}
 		} else {
 			res = ex.Explore()
 		}
